@@ -72,7 +72,9 @@ def gaf_record(draw, name):
 @st.composite
 def strategy_(draw, tier):
     nreads = draw(st.integers(1, 6))
-    reads = ["read%d" % i for i in range(nreads)]
+    # read names are arbitrary strings without blanks: quotes, slashes, '#', letters outside ASCII (the files are UTF-8)
+    style = draw(st.sampled_from(["read%d"] * 4 + ['"HG002"/%d/ccs', "se\u00f1al_%d", "m64_%d#1/ccs", "'r%d", '"r%d']))
+    reads = [style % i for i in range(nreads)]
     lines = []
     for _ in range(draw(st.integers(1, 12))):
         r = draw(st.sampled_from(reads))
@@ -91,6 +93,10 @@ def strategy_(draw, tier):
         tsv.append(row)
         if draw(st.integers(0, 4)) == 0:
             tsv.append(row)
+        elif draw(st.integers(0, 9)) == 0:
+            # the same read listed again with other values: the statement does not say which listing counts,
+            # the oracle accepts the values of any ONE listing (never a mixture)
+            tsv.append("%s\t%s\t%d\t%s" % (r, draw(st.sampled_from(["H1", "H2"])), draw(st.sampled_from([5, 909])), contig))
     hdr = tsv[0]
     body = [tsv[1 + i] for i in draw(st.permutations(range(len(tsv) - 1)))]
     comp = None
@@ -116,7 +122,7 @@ def run_case(case):
     for row in case["tsv"].split("\n")[1:]:
         if row:
             f = row.split("\t")
-            table.setdefault(f[0], (f[1], f[2], f[3]))
+            table.setdefault(f[0], []).append((f[1], f[2], f[3]))
     with core.workdir() as d:
         data = "".join(l + "\n" for l in lines).encode()
         if case.get("bgzf"):
@@ -151,21 +157,33 @@ def run_case(case):
         core.check(fb[:12] == want12, "mandatory columns changed: %s -> %s", want12, fb[:12])
         for t in fb[12:]:
             core.check(FIELD.match(t) is not None, "malformed optional field %r in %r", t, b)
-        ent = table.get(name)
-        if ent is None:
-            want = ("ps:Z:none", "ht:Z:none")
+        ents = table.get(name)
+        wants = []
+        if ents is None:
+            wants = [("ps:Z:none", "ht:Z:none")]
             kinds.add("missing")
-        elif ent[0] == "none":
-            want = ("ps:Z:none", "ht:Z:none")
-            kinds.add("unphased")
         else:
-            want = ("ps:Z:%s-%s" % (ent[2], ent[1]), "ht:Z:%s" % ent[0])
-            kinds.add("phased")
-        # the record GAINS one ps and one ht field with the TSV's values; everything else is the input's
-        rest = list(fb[12:])
-        for w in want:
-            core.check(w in rest, "read %s: no field %s in the output %s (haplotag TSV says %s %s)", name, w, rest, want[0], want[1])
-            rest.remove(w)
+            for ent in ents:
+                if ent[0] == "none":
+                    w_ = ("ps:Z:none", "ht:Z:none")
+                    kinds.add("unphased")
+                else:
+                    w_ = ("ps:Z:%s-%s" % (ent[2], ent[1]), "ht:Z:%s" % ent[0])
+                    kinds.add("phased")
+                if w_ not in wants:
+                    wants.append(w_)
+            if len(wants) > 1:
+                cl.add("read_listed_with_different_values")
+        # the record GAINS one ps and one ht field with the TSV's values (of one listing); everything else is the input's
+        rest = None
+        for want in wants:
+            r_ = list(fb[12:])
+            if all(w in r_ for w in want):
+                for w in want:
+                    r_.remove(w)
+                if rest is None or r_ == fa[12:]:
+                    rest = r_
+        core.check(rest is not None, "read %s: the output fields %s carry none of the listings of the haplotag TSV %s", name, fb[12:], wants)
         core.check(rest == fa[12:], "optional fields besides the new ps/ht changed: %s -> %s", fa[12:], rest)
         n_in = sum(1 for t in fa[12:] if t.startswith("ps:") or t.startswith("ht:"))
         n_out = sum(1 for t in fb[12:] if t.startswith("ps:") or t.startswith("ht:"))
@@ -180,9 +198,10 @@ def run_case(case):
     if len(set(names)) < len(names):
         cl.add("read_with_several_records")
     pss = {}
-    for k, v in table.items():
-        if v[0] != "none":
-            pss.setdefault(v[1], set()).add(v[2])
+    for k, vs in table.items():
+        for v in vs:
+            if v[0] != "none":
+                pss.setdefault(v[1], set()).add(v[2])
     if any(len(v) > 1 for v in pss.values()):
         cl.add("phase_set_id_on_two_contigs")
     if case.get("bgzf"):
